@@ -835,6 +835,30 @@ def _snapdiff(a, b):
     return "; ".join(d[:4])
 
 
+def with_packpos(path, k=7):
+    """rewrite the archive at `path` into an equivalent one whose packed streams start k bytes after the signature header
+    (PackPos = k: valid by the format, written by other tools, never by py7zr); raw header"""
+    import io
+    import py7zr
+    from py7zr.archiveinfo import SignatureHeader
+    data = open(path, "rb").read()
+    with py7zr.SevenZipFile(io.BytesIO(data), "r") as z:
+        h, ah = z.header, z.afterheader
+        pi = h.main_streams.packinfo
+        packed = data[ah + pi.packpos: ah + pi.packpos + sum(pi.packsizes)]
+        pi.packpos = k
+        out = io.BytesIO()
+        out.write(bytes(32))
+        out.write(bytes((i * 37 + 11) & 0xFF for i in range(k)))
+        out.write(packed)
+        pos, hlen, hcrc = h.write(out, 32, encoded=False)
+        sig = SignatureHeader()
+        sig.nextheaderofs = pos - 32
+        sig.calccrc(hlen, hcrc)
+        sig.write(out)
+    open(path, "wb").write(out.getvalue())
+
+
 def sc_append(p):
     out = []
     tmp = tempfile.mkdtemp(prefix="c19a_")
@@ -846,6 +870,14 @@ def sc_append(p):
         rc, so, se = run_cli(["c", "arc.7z", "top1"], w)
         if rc != 0:
             return [finding("c exits %s: %s" % (rc, se[-200:]), {"kind": "append", "step": "c"})]
+        if p.get("base") == "packpos":
+            # the same base as another conforming writer lays it out: packed streams not directly after the signature header
+            with_packpos(os.path.join(w, "arc.7z"), p.get("packpos", 7))
+            rc, so, se = run_cli(["x", "arc.7z", "chk"], w)
+            if rc != 0 or snap(os.path.join(w, "chk", "top1")) != s1:
+                return [finding("the base rewritten with PackPos > 0 is not read back by x (exit %s): %s" % (rc, se[-200:]),
+                                {"kind": "append", "step": "packpos-base"})]
+            shutil.rmtree(os.path.join(w, "chk"), ignore_errors=True)
         names1 = lib_names(os.path.join(w, "arc.7z"))
         what = p.get("append", ["top2"])
         rc, so, se = run_cli(["a", "arc.7z"] + what, w)
@@ -1329,6 +1361,11 @@ def explore(ctx, rep, rng, tier):
         if tier == "quick" and shape in ("multi-file-first/dir-one-file", "one-file-first/one-file"):
             continue
         jobs.append(("append", {"tree1": t1, "tree2": t2, "append": what, "shape": shape, "seed": ctx["seed"]}))
+    # `a` on a base laid out by another conforming writer (PackPos > 0)
+    jobs.append(("append", {"tree1": two, "tree2": one, "append": ["top2"], "shape": "packpos-base/dir-one-file", "seed": ctx["seed"],
+                            "base": "packpos", "packpos": 7}))
+    jobs.append(("append", {"tree1": one, "tree2": two, "append": ["top2"], "shape": "packpos-base/dir-two-files", "seed": ctx["seed"],
+                            "base": "packpos", "packpos": 100}))
     vol_tree = [["f", "r.bin", 9000, "random", 0o644], ["f", "t.txt", 3000, "text", 0o644], ["d", "e"]]
     sizes = ["2k", "4096B", "1g", "4096", "700", "2P", "700b"]
     if tier != "quick":
